@@ -13,6 +13,11 @@ TRUSTED = [
     "digits, only U+212A lower-cases into ASCII) are audited over all 1 114 112 code points on every run",
     "AST audit: every Call/Subscript/BinOp/Compare/Raise/Assert node of the 49 functions reachable from parser.parse is compared "
     "with the committed table harness/props/c14_sites.json; a new or changed node escalates to the thorough budget and is named",
+    "callee audit: the functions parse() reaches outside _parser.py (tzstr.__init__/_delta, tzrange.transitions, "
+    "tzrangebase.tzname/_isdst/is_ambiguous, tzlocal.*, tzoffset.__init__, enfold, relativedelta.__init__/__add__) are listed with the "
+    "model primitive that stands for each (histograms.callee_functions_and_model_primitives) and their Call/Raise/Subscript/BinOp/"
+    "Compare nodes are compared with harness/props/c14_callee_sites.json; the tables are snapshot diffs (a changed site escalates and "
+    "is named), not a proof that every site is modelled",
     "shared-state audit: every class-level / module-level assignment, global, store through cls / type(self) / a module-level name "
     "/ self of the shared DEFAULTPARSER, setattr, caching decorator and mutable default in ALL functions of _parser.py is compared "
     "with harness/props/c14_shared_state_sites.json; a new one escalates the statefulness streams and is named",
@@ -189,6 +194,20 @@ def correspondence(ctx):
         ctx.note("shared-state audit: new class-level / module-level state or a store into it in the anchored file -> thorough "
                  "budget for the statefulness streams (aliasing, same-text-twice, process-zone switches): %s" % snew[:10])
         ctx.count("shared_state_sites_new_or_changed", len(snew))
+    # --- callees outside _parser.py (tz.tzstr / tzrangebase / tzlocal / tzoffset / enfold / relativedelta.__add__)
+    csites, cmissing = L.ast_callee_sites(os.environ.get("DATEUTIL_REPO", "/repo"))
+    try:
+        ccommitted = json.load(open(os.path.join(os.path.dirname(SITES_FILE), "c14_callee_sites.json")))
+    except Exception:
+        ccommitted = {}
+    cnew = sorted(k for k in csites if csites[k] != ccommitted.get(k)) + sorted(k for k in ccommitted if k not in csites)
+    ctx.count("callee_sites_total", sum(csites.values()))
+    ctx.hist["callee_functions_and_model_primitives"] = "; ".join("%s:%s.%s -> %s" % (r, c or "", f, m) for r, c, f, m in L.CALLEES)
+    if cnew or cmissing:
+        ctx.escalated = True
+        ctx.note("callee audit: a function parse() reaches in tz / relativedelta differs from the committed site table -> thorough "
+                 "budget; new/changed/removed: %s; missing functions: %s" % (cnew[:10], cmissing))
+        ctx.count("callee_sites_new_or_changed", len(cnew) + len(cmissing))
     # --- lexer alone
     rng = ctx.subrng("lex")
     from dateutil.parser import _parser
